@@ -250,7 +250,7 @@ func Checks() map[string]*simcore.Check {
 		},
 		"C20": {
 			ID: "C20", Engine: "pathdbsim", Level: "fault_enumeration",
-			Rule: "plan = knobs (maxDiffLayers 2-6, tiny write buffers, history limits, trienode histories on/off, sync/async flush, journal in KV or in a journal file) + 1-3 incarnations of 5-80 operations (Update with forks, Commit, Recover) each ended by a clean Journal+Close+reopen or left running; every key-value mutation unit (single put/delete or one atomic batch, SyncKeyValue barriers) and every file mutation/fsync of the history freezers and the journal file is recorded with one global sequence number. The run is then cut after every sequence number (quick: 40 sampled cuts, half of them right before/after a key-value unit) and each cut is materialised as a process-crash image and 1-3 power-loss images (per file a drawn prefix of its unsynced writes, torn or zero-filled last write; key-value store minus up to 4 unsynced trailing units) and the real pathdb.New reopens on it. Oracle per reboot: opens without panic/log.Crit; the raw flat-state and trie-node key spaces are exactly the model state whose root/id the store records; state (and trienode) history head == disk layer id, tail <= persisted id and within the limit; layers above the persisted state only if the image holds a journal for that disk root and then exactly one recorded journal's layers, each reading as its model state; a journal completed right before a process crash is used; Recoverable agrees with the model for every state, Recover to a random and to the deepest recoverable root restores that state (C17 oracle), two new Updates and a Commit succeed. evaluations = runs, reboots = crash states reopened. Non-trivial = run with >= 1 flatten and > 2 reboots; distinct = distinct model-state fingerprints.",
+			Rule: "plan = knobs (maxDiffLayers 2-6, tiny write buffers, history limits, trienode histories on/off, sync/async flush, journal in KV or in a journal file) + 1-3 incarnations of 5-80 operations (Update with forks, Commit, Recover) each ended by a clean Journal+Close+reopen or left running; every key-value mutation unit (single put/delete or one atomic batch, SyncKeyValue barriers) and every file mutation/fsync of the history freezers and the journal file is recorded with one global sequence number. The run is then cut after every sequence number (quick: 40 sampled cuts per run, thorough: every cut of runs with up to 600 sequence numbers and 600 sampled cuts of longer ones; half of a sample sits right before/after a key-value unit) and each cut is materialised as a process-crash image and 1-2 power-loss images (per file a drawn prefix of its unsynced writes, torn or zero-filled last write; key-value store minus up to 4 unsynced trailing units) and the real pathdb.New reopens on it. Oracle per reboot: opens without panic/log.Crit; the raw flat-state and trie-node key spaces are exactly the model state whose root/id the store records; state (and trienode) history head == disk layer id, tail <= persisted id and within the limit; layers above the persisted state only if the image holds a journal for that disk root and then exactly one recorded journal's layers, each reading as its model state; a journal completed right before a process crash is used; Recoverable agrees with the model for every state, Recover to a random and to the deepest recoverable root restores that state (C17 oracle), two new Updates and a Commit succeed. evaluations = runs, reboots = crash states reopened. Non-trivial = run with >= 1 flatten and > 2 reboots; distinct = distinct model-state fingerprints.",
 			Assumptions: []string{
 				"a key-value batch is atomic (one WAL record); unsynced key-value units are lost as a suffix of at most 4 units in power-loss images (SyncKeyValue is the barrier); directory operations are durable immediately, file data at fsync of that file",
 				"reboots run with synchronous flushing (a legal configuration change across a restart)",
